@@ -3,10 +3,16 @@
 // Contracts for consensus transactions (comment-only).
 package transaction
 
+//@ import "github.com/oasisprotocol/oasis-core/go/common/quantity"
 //@ func Fee.GasPrice
-//@   trusted
+//@   props C16 C09
+//@   safety panic div nil
 //@   modifies nothing
+//@   requires quantity.Val(&f.Amount) >= 0
 //@   ensures result != nil
+//@   ensures (quantity.Val(&f.Amount) == 0 || f.Gas == 0) ==> quantity.Val(result) == 0
+//@   ensures quantity.Val(&f.Amount) != 0 && f.Gas != 0 ==> quantity.Val(result) == div(quantity.Val(&f.Amount), int(f.Gas))
+//@   note (C16) the gas price of EVERY decodable fee (any non-negative amount, any gas limit including 0) is computed without reaching one of the two "should never happen" panics: a zero gas limit never reaches the division. Called from CheckTx (AuthenticateAndPayFees, processTx) on transaction bytes from the mempool, where nothing recovers a panic. Verified, no longer trusted (seed C16_g turned the zero-gas guard into a conjunction)
 
 // ---- signed transactions (C09): opened only under the transaction signature context ----
 
